@@ -98,7 +98,10 @@ def _parse_time(t, formats):
     day = _t.tm_mday
     hour = _t.tm_hour
     minutes = _t.tm_min
-    dt = datetime(year, month, day, hour, minutes, tzinfo=timezone.utc)
+    try:
+        dt = datetime(year, month, day, hour, minutes, tzinfo=timezone.utc)
+    except ValueError:  # e.g. "Feb 29" without a year, in a non-leap current year
+        return None
 
     epoch_time = (dt - EPOCH_DT).total_seconds()
     return epoch_time
